@@ -1376,6 +1376,30 @@ def chain_rules():
             pass
         except Exception as ex:     # noqa
             out.append(('chain:trailing-accepted', f'{extra} trailing bytes raised {exc_name(ex)}'))
+    # the chain must end EXACTLY at the end of the data: also when the last payload announces more than there is
+    # (its body parser would be content with the shorter body: NOTIFY / VENDOR / KE / NONCE / AUTH / ID accept any tail)
+    vendor = bytes([0, 0]) + u(4 + 12, 2) + b'vendor-id-xx'
+    nonce = bytes([0, 0]) + u(4 + 24, 2) + bytes(range(24))
+    for name, first, pl in (('NOTIFY', 41, notify), ('VENDOR', 43, vendor), ('NONCE', 40, nonce)):
+        for cut in (1, 2, 4):
+            short = pl[:-cut]                       # the length field still announces the full payload
+            try:
+                M.Message.parse(hdr(first, len(short)) + short)
+                out.append(('chain:overrun-accepted', f'a {name} payload announcing {cut} octets more than the datagram '
+                            'holds was accepted'))
+            except M.InvalidSyntax:
+                pass
+            except Exception as ex:     # noqa
+                out.append(('chain:overrun-accepted', f'overrunning {name} payload raised {exc_name(ex)}'))
+        # two payloads, the second one overrunning
+        try:
+            two = notify[:0] + bytes([first, 0]) + notify[2:] + pl[:-2]
+            M.Message.parse(hdr(41, len(two)) + two)
+            out.append(('chain:overrun-accepted', f'a trailing {name} payload overrunning the data by 2 was accepted'))
+        except M.InvalidSyntax:
+            pass
+        except Exception as ex:     # noqa
+            out.append(('chain:overrun-accepted', f'overrunning trailing {name} payload raised {exc_name(ex)}'))
     return out
 
 
